@@ -270,6 +270,9 @@ func GoTest(v *hx.Violation) string {
 	return sb.String()
 }
 
+// JobFuncs run a single job in-process (debugging / replay): kind -> func(job JSON) result JSON.
+var JobFuncs = map[string]func([]byte) []byte{}
+
 // WorkerKinds are additional worker entry points registered by checks.
 var WorkerKinds = map[string]func(){}
 
